@@ -4,7 +4,7 @@ use crate::edit::State;
 use crate::error;
 use crate::highlight::CmdKind;
 use crate::history::SearchDirection;
-use crate::keymap::{Anchor, At, Cmd, Movement, Word};
+use crate::keymap::{Anchor, Cmd, Movement};
 use crate::keymap::{InputState, Refresher};
 use crate::kill_ring::{KillRing, Mode};
 use crate::line_buffer::WordAction;
@@ -49,9 +49,9 @@ pub fn execute<H: Helper>(
             s.edit_move_home()?;
         }
         Cmd::Move(Movement::ViFirstPrint) => {
-            s.edit_move_home()?;
-            if s.line.starts_with(char::is_whitespace) {
-                s.edit_move_to_next_word(At::Start, Word::Big, 1)?;
+            // first non-blank character of the current line
+            if s.line.move_to_first_print() {
+                s.move_cursor(CmdKind::MoveCursor)?;
             }
         }
         Cmd::Move(Movement::BackwardChar(n)) => {
